@@ -61,6 +61,25 @@ static Sys grid(int nx, int ny, double contrast) {
     }
     return finish(s);
 }
+// anisotropic diffusion: coupling 1 in x, `weak` in y (lexicographic numbering, so every cut between grid rows severs weak
+// couplings only); Dirichlet contribution on the boundary cells, interior rows have row sum exactly zero (dyadic values)
+static Sys aniso(int nx, int ny, double weak) {
+    Sys s; s.n = nx * ny; s.name = vf::KS() << "aniso" << nx << "x" << ny << "_w" << weak; s.ptr.push_back(0);
+    for (int j = 0; j < ny; ++j) for (int i = 0; i < nx; ++i) {
+        std::vector<std::pair<int,double>> row; double d = 0;
+        int di[4] = {0, -1, 1, 0}, dj[4] = {-1, 0, 0, 1};
+        for (int q = 0; q < 4; ++q) {
+            int ii = i + di[q], jj = j + dj[q];
+            double w = dj[q] ? weak : 1.0;
+            d += w; if (!(ii < 0 || ii >= nx || jj < 0 || jj >= ny)) row.push_back({jj * nx + ii, -w});
+        }
+        row.push_back({j * nx + i, d});
+        std::sort(row.begin(), row.end());
+        for (auto &e : row) { s.col.push_back(e.first); s.val.push_back(e.second); }
+        s.ptr.push_back((ptrdiff_t)s.col.size());
+    }
+    return finish(s);
+}
 static std::vector<Sys> systems() {
     std::vector<Sys> v;
     v.push_back(grid(8, 1, 1)); v.push_back(grid(4, 3, 10)); v.push_back(grid(5, 5, 1)); v.push_back(grid(6, 6, 10));
@@ -246,7 +265,11 @@ static void extract(const DM &M, int rank, Eigen::MatrixXd &out) {
 }
 
 template <class Coarsening>
-static std::string hier_once(const Sys &s, const Part &p, bool repart, const Env &e, int coarse_enough, int nullcols = 0) {
+static std::string hier_once(const Sys &s, const Part &p, bool repart, const Env &e, int coarse_enough, int nullcols = 0, double eps_strong = 0, bool rebuild = false) {
+    // rebuild mode: hierarchy built for A (allow_rebuild), then rebuild(A2) with the same pattern and other values; everything below
+    // is judged against A2 (transfer operators are reused, every coarse matrix must be R A2 P again)
+    std::vector<double> val2 = s.val;
+    if (rebuild) for (int i = 0; i < s.n; ++i) for (ptrdiff_t j = s.ptr[i]; j < s.ptr[i+1]; ++j) val2[j] = s.val[j] * (s.col[j] == i ? 1.5 : (((i + s.col[j]) & 1) ? 0.75 : 1.0));
     typedef mpi::amg<B, Coarsening, mpi::relaxation::spai0<B>, mpi::direct::skyline_lu<double>, mpi::partition::merge<B>> AMG;
     int k = (int)p.size() - 1;
     HierOut<Coarsening> o; o.exc.assign(k, "");
@@ -262,7 +285,7 @@ static std::string hier_once(const Sys &s, const Part &p, bool repart, const Env
                 for (int i = rb; i < re; ++i) { for (ptrdiff_t j = s.ptr[i]; j < s.ptr[i+1]; ++j) { col.push_back(s.col[j]); val.push_back(s.val[j]); } ptr.push_back((ptrdiff_t)col.size()); }
                 typename AMG::params prm;
                 prm.coarse_enough = coarse_enough;
-                prm.coarsening.aggr.eps_strong = 0;        // every stored connection is strong: the partition laws become checkable from P alone
+                prm.coarsening.aggr.eps_strong = eps_strong;   // 0: every stored connection is strong, the partition laws become checkable from P alone
                 if (nullcols) {
                     // near-null space B = [1, i, i^2 ...] in the global row index (row-major local slice)
                     prm.coarsening.aggr.nullspace.cols = nullcols;
@@ -271,7 +294,12 @@ static std::string hier_once(const Sys &s, const Part &p, bool repart, const Env
                     prm.max_levels = 2;
                 }
                 if (repart) { prm.repart.enable = true; prm.repart.min_per_proc = 4; prm.repart.shrink_ratio = 2; }
+                if (rebuild) prm.allow_rebuild = true;
                 AMG amg(comm, std::make_tuple((size_t)nl, ptr, col, val), prm);
+                if (rebuild) {
+                    std::vector<double> v2; for (int i = rb; i < re; ++i) for (ptrdiff_t j = s.ptr[i]; j < s.ptr[i+1]; ++j) v2.push_back(val2[j]);
+                    amg.rebuild(std::make_tuple((size_t)nl, ptr, col, v2));
+                }
                 if (r == 0) { o.nlev = (int)amg.levels.size(); o.A.resize(o.nlev); o.P.resize(o.nlev); o.R.resize(o.nlev); }
                 MPI_Barrier(comm);
                 int li = 0;
@@ -305,7 +333,7 @@ static std::string hier_once(const Sys &s, const Part &p, bool repart, const Env
     // ---- judge ----
     const double u = 1.1102230246251565e-16;
     Eigen::MatrixXd A0 = Eigen::MatrixXd::Zero(s.n, s.n);
-    for (int i = 0; i < s.n; ++i) for (ptrdiff_t j = s.ptr[i]; j < s.ptr[i+1]; ++j) A0(i, s.col[j]) = s.val[j];
+    for (int i = 0; i < s.n; ++i) for (ptrdiff_t j = s.ptr[i]; j < s.ptr[i+1]; ++j) A0(i, s.col[j]) = val2[j];
     if (o.nlev == 0) return "no levels";
     if (o.A[0].rows() == s.n && (o.A[0] - A0).cwiseAbs().maxCoeff() != 0) return "finest level operator differs from the input matrix";
     Eigen::MatrixXd Aprev = A0;
@@ -333,7 +361,20 @@ static std::string hier_once(const Sys &s, const Part &p, bool repart, const Env
             for (int a = 0; a < G2.rows(); ++a) for (int b = 0; b < G2.cols(); ++b) if (a / nullcols != b / nullcols && std::abs(G2(a, b)) > 1e-12) return vf::KS() << "level 0: tentative columns " << a << " and " << b << " of different aggregates overlap";
             vf::count("nullspace_levels_checked");
         }
-        if (plain && !nullcols) {
+        if (!plain && !nullcols && eps_strong > 0) {
+            // smoothed aggregation with weak connections: P = (I - w Df^-1 Af) P_tent and the weak entries of a row are lumped into
+            // Df wherever they live (local or remote block), so Af keeps the row sums of A and the constant vector is reproduced on
+            // every zero-row-sum row that is interpolated at all
+            for (int i = 0; i < P.rows(); ++i) {
+                double rs = 0, mag = 0; for (int j = 0; j < Aprev.cols(); ++j) { rs += Aprev(i, j); mag += std::abs(Aprev(i, j)); }
+                double ps = 0, pm = 0; for (int j = 0; j < P.cols(); ++j) { ps += P(i, j); pm += std::abs(P(i, j)); }
+                if (l == 0 && rs == 0 && pm != 0) {
+                    if (std::abs(ps - 1) > 64 * (P.cols() + 8) * u * std::max(1.0, pm)) return vf::KS() << "level 0: row " << i << " of A has zero row sum but row " << i << " of P sums to " << ps << " (constant vector not reproduced; weak connections of that row: " << [&]{ int w = 0; for (int j = 0; j < Aprev.cols(); ++j) if (j != i && Aprev(i, j) != 0 && Aprev(i, j) * Aprev(i, j) <= eps_strong * eps_strong * Aprev(i, i) * Aprev(j, j)) ++w; return w; }() << ")";
+                    vf::count("sa_zero_rowsum_rows_checked_distributed");
+                }
+            }
+        }
+        if (plain && !nullcols && eps_strong == 0) {
             // aggregation laws across rank boundaries (eps_strong = 0: every off-diagonal entry is a strong connection)
             for (int i = 0; i < P.rows(); ++i) {
                 int cnt = 0; double sum = 0; for (int j = 0; j < P.cols(); ++j) if (P(i, j) != 0) { ++cnt; sum += P(i, j); }
@@ -371,6 +412,31 @@ static std::string hier_once(const Sys &s, const Part &p, bool repart, const Env
     return "";
 }
 
+// weak connections across rank boundaries (default eps_strong): anisotropic grids, every contiguous partition into 2 parts and
+// characteristic partitions into 3
+template <class Coarsening>
+static void run_hier_weak(const char *cname) {
+    std::vector<Sys> sys = { aniso(4, 4, 0.0078125), aniso(5, 3, 0.0078125) };
+    if (vf::thorough()) { sys.push_back(aniso(6, 5, 0.0078125)); sys.push_back(aniso(4, 6, 0.03125)); }
+    for (auto &s : sys) for (int k = 1; k <= 3; ++k) {
+        std::vector<Part> parts;
+        if (k <= 2) compositions(s.n, k, parts); else parts = some_partitions(s.n, k);
+        for (auto &p : parts) {
+            std::string key = vf::KS() << "hw|" << cname << "|" << s.name << "|" << k << "|" << pshow(p);
+            if (!vf::take([&]{ return key; })) continue;
+            for (auto &e : ENVS) {
+                std::string v = hier_once<Coarsening>(s, p, false, e, 2, 0, 0.08);
+                vf::count("executions"); vf::S().transitions += 1;
+                if (!v.empty()) { vf::fail(std::string("dhier.weak_connections.") + cname, key, vf::KS() << "eps_strong=0.08 schedule " << e.name << ": " << v); break; }
+                if (k == 1) break;
+            }
+            vf::S().states += 1;
+            if (k > 1) vf::nontrivial(vf::hstr(key));
+        }
+        vf::space(vf::KS() << "hierarchy extraction with weak connections (eps_strong 0.08): " << cname << " x " << s.name << " x " << k << " ranks x partitions");
+    }
+}
+
 template <class Coarsening>
 static void run_hier_t(const char *cname) {
     auto sys = systems();
@@ -391,12 +457,18 @@ static void run_hier_t(const char *cname) {
                     vf::count("executions"); vf::S().transitions += 1;
                     if (!v.empty()) { vf::fail(std::string("dhier.nullspace.") + cname, key, vf::KS() << "nullspace cols=" << nc << " schedule " << e.name << ": " << v); break; }
                 }
+                // rebuild(A2) of a hierarchy built with allow_rebuild
+                if (!repart) {
+                    v = hier_once<Coarsening>(s, p, repart, e, ce, 0, 0, true);
+                    vf::count("executions"); vf::count("rebuild_executions"); vf::S().transitions += 1;
+                    if (!v.empty()) { vf::fail(std::string("dhier.rebuild.") + cname, key, vf::KS() << "after rebuild(A2), schedule " << e.name << ": " << v); break; }
+                }
                 if (k == 1) break;
             }
             vf::S().states += 1;
             if (k > 1) vf::nontrivial(vf::hstr(key));
         }
-        vf::space(vf::KS() << "hierarchy extraction: " << cname << " x " << s.name << " x " << k << " ranks x partitions x repartition {off, merge} x coarse_enough {2, n/4}");
+        vf::space(vf::KS() << "hierarchy extraction (also after rebuild with a second matrix): " << cname << " x " << s.name << " x " << k << " ranks x partitions x repartition {off, merge} x coarse_enough {2, n/4}");
     }
 }
 
@@ -494,6 +566,7 @@ int main(int argc, char **argv) {
     vf::sample_str("hierarchy case: aggregation on grid5x5_c1, 3 ranks: every level operator extracted by distributed spmv on unit vectors; partition laws, R == P^T, A_c == R A P / 1.5, direct solver inverse");
 #ifdef C12_UNIT_HIER
     if (vf::section("h")) { run_hier_t< mpi::coarsening::aggregation<B> >("aggregation"); run_hier_t< mpi::coarsening::smoothed_aggregation<B> >("smoothed_aggregation"); }
+    if (vf::section("hw")) { run_hier_weak< mpi::coarsening::aggregation<B> >("aggregation"); run_hier_weak< mpi::coarsening::smoothed_aggregation<B> >("smoothed_aggregation"); }
 #elif defined(C12_UNIT_SDD)
     if (vf::section("sd")) run_sdd();
 #else
